@@ -904,6 +904,19 @@ def general_histories(rng, tier, n_hist=None, steps=None):
             else:
                 for o in gen_allowance_burst(h, rng, u):
                     h.do(o)
+        # directed: hooks relayed by the WRONG token, for a sizeable part of that token's supply (a pool's own cw20 asset
+        # relaying a withdraw hook, the LP token relaying a swap hook): must be refused whatever the amount (C07-agent15:
+        # honoured pro rata to the relaying token's supply, which small amounts round to nothing)
+        for p in h.pairs()[:3]:
+            lp = h.pair_lp(p)
+            for a in h.pair_assets(p):
+                if a[0] == "t":
+                    u = max(h.users(), key=lambda x: h.bal(a[1], x))
+                    if h.bal(a[1], u) >= 3:
+                        h.do(("send", a[1], u, p, h.bal(a[1], u) // 3, ("hwithdraw",)))
+            u = max(h.users(), key=lambda x: h.bal(lp, x))
+            if h.bal(lp, u) >= 3:
+                h.do(("send", lp, u, p, h.bal(lp, u) // 3, ("hswap", ("t", lp), h.bal(lp, u) // 3, None, None, None)))
         # every holder tries to withdraw (liveness, C20)
         for p in h.pairs():
             lp = h.pair_lp(p)
@@ -964,6 +977,30 @@ def extreme_histories(rng, tier):
         b2 = h.bal(lp, USER0 + 2)
         if b2 > 0:
             h.do(("send", lp, USER0 + 2, p, b2, ("hwithdraw",)))
+    cases.append(h.finish())
+    # the LP supply sits EXACTLY at the geometric mean of the reserves (equal first deposits, no fee collected yet), then another
+    # actor's dust swaps inside the recorded rounding window (KF-ceil-window: 2e18/2e18, offer 1, the pool pays 1 with no
+    # commission) lower the reserve product below supply^2; every holder must still be able to withdraw afterwards
+    # (C20-agent15: a "supply <= sqrt(product)" solvency check in front of the refund)
+    h = Hist(3, 2, 2, 2, 10 ** 22, 1000, [18, 18], "directed-extreme", "withdrawals after dust swaps inside the rounding window")
+    created = setup_pairs(h, rng, [(("n", 0), ("t", 2)), (("t", 2), ("t", 3))], comm=3 * 10 ** 15, provide=False, native_decs=[18, 18])
+    for p in created:
+        a0, a1 = h.pair_assets(p)
+        lp = h.pair_lp(p)
+        n = 2 * 10 ** 18
+        h.do(("provide", p, USER0, funds_for([(a0, n), (a1, n)]), a0, n, a1, n, None, None))
+        h.do(("transfer", lp, USER0, USER0 + 2, h.bal(lp, USER0) // 4))
+        h.do(("send", lp, USER0, p, 10 ** 17, ("hwithdraw",)))              # before any swap
+        for k in range(3):
+            off = (a0, a1)[k % 2]
+            if off[0] == "n":
+                h.do(("swap", p, USER0 + 1, [(off[1], 1)], off, 1, None, None, None))
+            else:
+                h.do(("send", off[1], USER0 + 1, p, 1, ("hswap", off, 1, None, None, None)))
+            for u in (USER0, USER0 + 2):
+                b = h.bal(lp, u)
+                if b > 3:
+                    h.do(("send", lp, u, p, b // 3, ("hwithdraw",)))
     cases.append(h.finish())
     # the same value cycles through a pool again and again: every round a holder withdraws half of its LP and the payout is
     # donated back; no single amount is large, but the payouts ADD UP to more than 2^128
@@ -1051,10 +1088,14 @@ def auth_matrix(rng, tier):
             lq = h.pair_lp(q)
             for ta in [2, 3, 4] + [h.pair_lp(x) for x in created]:
                 if h.bal(ta, USER0) >= 10:
-                    if ta != lq:
-                        h.do(("send", ta, USER0, q, 10, ("hwithdraw",)))
-                    if ("t", ta) not in h.pair_assets(q):
-                        h.do(("send", ta, USER0, q, 10, ("hswap", ("t", ta), 10, None, None, None)))
+                    # a small amount, and a sizeable fraction of the relaying token's supply (a hook that is wrongly honoured
+                    # pays out pro rata to THAT token's supply: with 10 units every refund rounds to zero and the transfer of
+                    # nothing reverts the call for that reason alone - C07-agent15)
+                    for amt in (10, max(11, h.bal(ta, USER0) // 3)):
+                        if ta != lq:
+                            h.do(("send", ta, USER0, q, amt, ("hwithdraw",)))
+                        if ("t", ta) not in h.pair_assets(q):
+                            h.do(("send", ta, USER0, q, amt, ("hswap", ("t", ta), amt, None, None, None)))
         for phase in (0, 1, 2):
             owner = h.owner()
             if phase < 2:
@@ -1540,7 +1581,10 @@ def registry_histories(rng, tier, big=False):
             if rng.random() < 0.5:
                 a, b = b, a
             if n <= 14:
-                h.do(("fac_create_pair", owner, a, b, [USER0], rng.randrange(3), rng.randrange(3),
+                # whitelists of any length (the message puts no bound on it; duplicates are stored as given): a record can be
+                # hundreds of addresses long (C19-agent15: pages closed by a budget on the addresses they carry)
+                wl_ = [USER0] if made % 4 != 2 else [[], [USER0, USER0 + 1] * 151, [USER0 + 1] * 40, [USER0] * 1001][(made // 4) % 4]
+                h.do(("fac_create_pair", owner, a, b, wl_, rng.randrange(3), rng.randrange(3),
                       rng.choice([None, 0, 10 ** 16, D, D + 1]), rng.choice([None, 6, 18, 19])))
             else:   # a big registry needs (nearly) every candidate to be created
                 h.do(("fac_create_pair", owner, a, b, [USER0], 0, 0, rng.choice([None, 0, 10 ** 16]), rng.choice([None, 6, 18])))
@@ -1753,6 +1797,22 @@ def router_histories(rng, tier):
                 h.do(("router_ops", u, [(offer[1], amount)], ops, m, to), quote)
             else:
                 h.do(("send", offer[1], u, ROUTER, amount, ("hrouter", ops, m, to)), quote)
+        # directed, late: the router holds (or is handed, next to the input) a few units of a native coin that is NOT an asset of
+        # the route; the route must be unaffected - every hop swaps the router's balance of ITS offer asset, the recipient gets
+        # the quote, the unrelated coin stays where it is (C13-agent15: the hop amount was read from the first coin of the
+        # router's whole bank balance, i.e. from whichever denom sorts first)
+        for X, Y in ((1, 0), (0, 1)):
+            routes = [r for r in ([(("n", Y), ("t", 2))], [(("n", Y), ("t", 2)), (("t", 2), ("t", 3))], [(("n", Y), ("t", 3))])]
+            u = USER0 + 2
+            for k, ops in enumerate(routes):
+                amount = max(1, min(h.bank(u, Y), 10 ** 5 + 13 * k))
+                if h.bank(u, Y) < amount or h.bank(u, X) < 10:
+                    continue
+                if k == 0:
+                    h.do(("bank", u, ROUTER, [(X, 3)]))                      # donated beforehand
+                quote = h.query("rsim %d %s" % (amount, ops_line(ops)))
+                funds = [(Y, amount)] if k != 2 else sorted([(Y, amount), (X, 4)])   # or attached to the call itself
+                h.do(("router_ops", u, funds, ops, None, USER0 + 3), quote)
         # directed, last (the router is no longer empty afterwards): the router ALREADY HOLDS some of the final asset (a donation)
         # and is itself the recipient; minimums inside (output, output + stray] must fail - the recipient's balance has to GROW
         # by the minimum, what it held before does not count (C11-agent11 was caught only by luck of the random steps)
